@@ -71,6 +71,12 @@ for u in _c09.UNITS:
     u = dict(u); u['enforce'] = ['cccd_access', 'enc_check_true', 'enc_check_false']; UNITS.append(u)
     UNITS.append(dict(u, name='gate', enforce=['enc_check_true', 'enc_check_false'], replay=dict(src='replay/c05_replay.cpp'))); u['enforce'] = ['cccd_access']
 
+# the link side: link_layer<>::disconnect( reason ) (contract in lle.py) must not switch the link's encryption off while PDUs that were queued on the encrypted link are still to be sent
+import lle
+UNITS.append(lle.unit(['ll_disconnect'], name='link', replay=dict(src='replay/c05_link_replay.cpp', cxxflags=['-DNDEBUG', '-I/repo/tests/test_tools', '-I/repo/tests/link_layer'],
+                      repo_sources=['tests/test_tools/test_radio.cpp', 'tests/test_tools/hexdump.cpp', 'tests/test_tools/buffer_io.cpp', 'tests/test_tools/address_io.cpp',
+                                    'bluetoe/link_layer/delta_time.cpp', 'bluetoe/link_layer/channel_map.cpp', 'bluetoe/link_layer/connection_details.cpp', 'bluetoe/utility/address.cpp'])))
+
 META = dict(
     level='proof',
     explanation="(1) The defining expressions of encryption_default<>::value / ::maybe and characteristic_requires_encryption<>::value "
@@ -81,7 +87,10 @@ META = dict(
                 "cstring_wrapper, value_handler_base) and the CCCD access function: with RequiresEncryption symbolic, on an unencrypted link the "
                 "function returns that code, writes no byte of the request buffer, of the bound value or of the CCCD store (ghost index + "
                 "conditional assigns frame) and calls no user handler / callback - for every access type, offset, length and content.",
-    assumptions=["has_option<requires_encryption / no_encryption_required / may_require_encryption, Options...> are type-level results and enter as "
+    assumptions=["the gate decides when the attribute is accessed; the response is transmitted later by the link layer: unit link (link_layer<>::disconnect, real body) proves that a "
+                 "disconnect requested by the local host does not switch the link's encryption off while queued PDUs and the LL_TERMINATE_IND are still to be sent "
+                 "(force_disconnect, which does, is where the connection ends: C29); LL_PAUSE_ENC_REQ from the central is the central's own decision (C28)",
+                 "has_option<requires_encryption / no_encryption_required / may_require_encryption, Options...> are type-level results and enter as "
                  "symbolic booleans; that each generate_attribute<> instantiation passes characteristic_requires_encryption<...>::value as "
                  "RequiresEncryption is read off the source (template argument), not proved",
                  "that every ATT request path (Read, Read Blob, Read By Type, Read Multiple, Write, Write Command, Prepare/Execute Write, "
